@@ -109,6 +109,7 @@ type accrual struct {
 	coins  sdk.Coins
 	frac   map[string]map[entKey]*big.Rat // asset -> position -> share of the validator's delegator shares
 	weight map[string]*big.Rat            // asset -> reward weight when the rewards accrued
+	warm   map[string]bool                // assets staked on the validator that were still in warm-up when the rewards accrued
 }
 
 type OracleC13 struct {
@@ -165,10 +166,15 @@ func eligibleAsset(s *Snap, v int, dn string) bool {
 // at the start of a block, with the positions (and their shares) existing at that moment:
 // rewards that accrued before a position existed or grew are not payable to the new stake.
 func (o *OracleC13) accrue(x *Exec, s *Snap, v int, coins sdk.Coins) {
-	a := accrual{coins: coins, frac: map[string]map[entKey]*big.Rat{}, weight: map[string]*big.Rat{}}
+	a := accrual{coins: coins, frac: map[string]map[entKey]*big.Rat{}, weight: map[string]*big.Rat{}, warm: map[string]bool{}}
 	n := 0
 	for _, dn := range s.AssetOrder {
 		if !eligibleAsset(s, v, dn) {
+			if as := s.Assets[dn]; s.Time.Before(as.RewardStartTime) {
+				if vs, ok := s.Vals[v].ValShares[dn]; ok && vs.IsPositive() {
+					a.warm[dn] = true
+				}
+			}
 			continue
 		}
 		tds := decRat(s.Vals[v].DelShares[dn])
@@ -216,6 +222,28 @@ func (o *OracleC13) deposit(x *Exec, s *Snap, v int) {
 		shareOnV[dn] = new(big.Rat).Quo(decRat(s.Vals[v].ValShares[dn]), decRat(a.TotalValidatorShares))
 	}
 	for _, ac := range accs {
+		// Listed finding F-C14a: rewards are settled lazily and nothing settles a validator when an
+		// asset's warm-up ends, so rewards that x/distribution credited while an asset staked on the
+		// validator was still in warm-up are shared with that asset if they are withdrawn after its
+		// start time ("before its reward start time an asset earns no rewards" is violated, and the
+		// other assets' positions receive less). The positions on the validator are not judged at
+		// their next settlement.
+		late := false
+		for dn := range shareOnV {
+			if ac.warm[dn] {
+				late = true
+			}
+		}
+		if late {
+			x.KnownFinding("F-C14a")
+			x.Label("c13:warm-up-rewards-shared-with-the-started-asset")
+			for _, d := range s.Dels {
+				if d.V == v {
+					o.tainted[entKey{d.D, d.V, d.Denom}] = true
+				}
+			}
+			continue
+		}
 		// a weight change (decay or governance) affects only rewards received afterwards: the
 		// split uses the reward weights in force when the rewards accrued
 		W := map[string]*big.Rat{}
